@@ -19,8 +19,8 @@ class Words:
         return ' '.join(f'w{i}' for i in ids), ids
 
 
-def page(html, w, h, font=10, line=10, margin=0):
-    return (f'<html><head><style>@page{{size:{w}px {h}px;margin:{margin}px}}{STYLE}'
+def page(html, w, h, font=10, line=10, margin=0, page_css=''):
+    return (f'<html><head><style>@page{{size:{w}px {h}px;margin:{margin}px;{page_css}}}{STYLE}'
             f'body{{font-size:{font}px;line-height:{line}px}}</style></head><body>{html}</body></html>')
 
 
@@ -95,7 +95,93 @@ def column_spans():
         yield f'colspan-c{cols}-room{room}-b{before}-a{after}-H{height}', page(body, 200, height), w.groups
 
 
-FAMILIES = [footnotes_in_columns, floats_definite, table_spans, footer_tables, column_spans]
+def footnotes_plain():
+    """Footnotes outside columns: several calls per page, multi-line bodies, small pages (bodies are postponed to
+    later pages; an extra page may be needed only for postponed bodies), every footnote-policy."""
+    for notes, note_lines, height, policy, per_par, maxh in itertools.product(
+            (3, 6), (1, 3, 'mixed'), (40, 60, 100), ('auto', 'line', 'block'), (1, 3), (None, 30)):
+        w = Words()
+        pars = []
+        left = notes
+        while left > 0:
+            calls = ''
+            for _ in range(min(per_par, left)):
+                size = (1, 5, 1, 4)[(notes - left) % 4] if note_lines == 'mixed' else note_lines
+                note = '<br>'.join(w.take(1, 'oof', ('footnote',))[0] for _ in range(size))
+                ids = [i for g in w.groups[-size:] for i in g['words']]
+                del w.groups[-size:]
+                w.groups.append({'kind': 'oof', 'words': ids, 'ctx': ['footnote']})
+                calls += (f' {w.take(1)[0]}<span style="float:footnote;footnote-policy:{policy}">{note}</span>')
+                left -= 1
+            pars.append(f'<p>{w.take(2)[0]}{calls}<br>{w.take(2)[0]}</p>')
+        body = ''.join(pars) + f'<p>{w.take(2)[0]}</p>'
+        # footnote bodies appear in the order of their calls (one pseudo group over all of them)
+        w.groups.append({'kind': 'oof', 'ctx': ['footnote', 'allnotes'],
+                         'words': [i for g in w.groups if g['ctx'] == ['footnote'] for i in g['words']]})
+        yield (f'fn-plain-n{notes}-l{str(note_lines)[0]}-H{height}-{policy}-q{per_par}-m{maxh or 0}',
+               page(body, 200, height, page_css=f'@footnote{{max-height:{maxh}px}}' if maxh else ''), w.groups)
+
+
+def floats_long():
+    """Floats that span three pages or more (automatic and definite heights)."""
+    for fh, flines, pre, height in itertools.product(('auto', 150, 250), (14, 22), (0, 3), (50, 80)):
+        w = Words()
+        body = ''.join(f'<p>{w.take(1)[0]}</p>' for _ in range(pre))
+        lines = '<br>'.join(w.take(1, 'oof', ('float',))[0] for _ in range(flines))
+        ids = [i for g in w.groups[-flines:] for i in g['words']]
+        del w.groups[-flines:]
+        w.groups.append({'kind': 'oof', 'words': ids, 'ctx': ['float']})
+        hcss = '' if fh == 'auto' else f'height:{fh}px;'
+        body += f'<div style="float:left;width:50px;{hcss}">{lines}</div>'
+        # enough in-flow content after the float for the document to last as long as the float does (a float cut at
+        # the end of the document is the recorded finding out-of-flow-lost-at-document-end)
+        body += ''.join(f'<p>{w.take(1)[0]}</p>' for _ in range(3 * flines))
+        yield f'float-long-h{fh}-l{flines}-p{pre}-H{height}', page(body, 200, height), w.groups
+
+
+def forced_breaks_in_tables():
+    """Forced and avoided breaks between table rows and row groups on small pages (natural breaks occur too)."""
+    for value, where, at, rows, height in itertools.product(
+            ('page', 'left', 'avoid'), ('before', 'after'), (1, 2, 4), (6,), (40, 100)):
+        for groups_ in (False, True):
+            w = Words()
+            trs = []
+            for i in range(rows):
+                style = f'break-{where}:{value}' if i == at else ''
+                cells = '<br>'.join(w.take(1, ctx=('table',))[0] for _ in range(1 + i % 2))
+                ids = [x for g in w.groups[-(1 + i % 2):] for x in g['words']]
+                del w.groups[-(1 + i % 2):]
+                w.groups.append({'kind': 'flow', 'words': ids, 'ctx': ['table']})
+                trs.append(f'<tr style="{style}"><td>{cells}</td><td>{w.take(1, ctx=("table",))[0]}</td></tr>')
+            if groups_:
+                inner = f'<tbody>{"".join(trs[:3])}</tbody><tbody>{"".join(trs[3:])}</tbody>'
+            else:
+                inner = ''.join(trs)
+            body = f'<p>{w.take(1)[0]}</p><table style="border-spacing:0">{inner}</table><p>{w.take(1)[0]}</p>'
+            yield (f'tbl-brk-{value}-{where}-r{at}-H{height}-g{int(groups_)}', page(body, 200, height), w.groups)
+
+
+def padded_containers():
+    """Containers with their own bottom padding / border around columns, tables and paragraphs that reach the page
+    bottom (with and without box-decoration-break: clone): the container's bottom decoration must fit too."""
+    for kind, pad, clone, lines, height in itertools.product(
+            ('columns', 'table', 'paras'), (6, 15), (False, True), (5, 9, 14), (60, 100)):
+        w = Words()
+        if kind == 'columns':
+            inner = ('<div style="columns:2;column-gap:0">'
+                     + ''.join(f'<p>{w.take(1, ctx=("columns",))[0]}</p>' for _ in range(lines)) + '</div>')
+        elif kind == 'table':
+            inner = ('<table style="border-spacing:0">'
+                     + ''.join(f'<tr><td>{w.take(1, ctx=("table",))[0]}</td></tr>' for _ in range(lines)) + '</table>')
+        else:
+            inner = ''.join(f'<p>{w.take(1)[0]}</p>' for _ in range(lines))
+        css = f'padding-bottom:{pad}px;border-bottom:2px solid' + (';box-decoration-break:clone' if clone else '')
+        body = f'<p>{w.take(1)[0]}</p><div style="{css}">{inner}</div><p>{w.take(1)[0]}</p>'
+        yield f'pad-{kind}-p{pad}-c{int(clone)}-l{lines}-H{height}', page(body, 200, height), w.groups
+
+
+FAMILIES = [footnotes_in_columns, floats_definite, table_spans, footer_tables, column_spans,
+            footnotes_plain, floats_long, forced_breaks_in_tables, padded_containers]
 
 
 def all_documents():
@@ -152,6 +238,95 @@ def break_documents():
                 f'<div style="break-before:{v2}"><div><p>{b}</p></div></div>')
         yield (f'brk-blocks-{v1}-{v2}', page(html, 200, 400),
                [(['auto', v1, 'auto', v2, 'auto', 'auto'], ida, idb)])
+
+
+def avoid_documents():
+    """-> (doc id, html, between [(values meeting, words of A, words of B)], inside [(value, words of the unit)]).
+    Avoided breaks outside the block/paragraph grammar of the pagination model: between table rows, between a
+    heading and a table / list / multi-column container, inside rows (multi-line cells), inside list items and inside
+    blocks holding a table. One avoiding value per document, so an earlier legal break point exists whenever the
+    first sibling is not the first content of its page."""
+    for value, height, at in itertools.product(('avoid', 'avoid-page'), (40, 50, 70), (1, 2, 3, 4)):
+        # rows of one line each; `at` and `at+1` meet at an avoiding value (set after or before)
+        for side in ('after', 'before'):
+            w = Words()
+            rows, cells = [], []
+            for i in range(8):
+                text, ids = w.take(1)
+                cells.append(ids)
+                style = ''
+                if side == 'after' and i == at:
+                    style = f'break-after:{value}'
+                if side == 'before' and i == at + 1:
+                    style = f'break-before:{value}'
+                rows.append(f'<tr style="{style}"><td>{text}</td></tr>')
+            values = [value, 'auto'] if side == 'after' else ['auto', value]
+            yield (f'avoid-rows-{value}-{side}-r{at}-H{height}',
+                   page(f'<table style="border-spacing:0">{"".join(rows)}</table>', 200, height),
+                   [(values, cells[at], cells[at + 1])], [])
+        # a row with a cell of three lines and break-inside: avoid
+        w = Words()
+        rows, inside = [], []
+        for i in range(6):
+            n = 3 if i == at else 1
+            texts = [w.take(1) for _ in range(n)]
+            ids = [x for _, t in texts for x in t]
+            style = f'break-inside:{value}' if i == at else ''
+            if i == at:
+                inside.append((value, ids))
+            rows.append(f'<tr style="{style}"><td>{"<br>".join(t for t, _ in texts)}</td><td>{w.take(1)[0]}</td></tr>')
+        yield (f'avoid-in-row-{value}-r{at}-H{height}',
+               page(f'<p>{w.take(1)[0]}</p><table style="border-spacing:0">{"".join(rows)}</table>', 200, height),
+               [], inside)
+        # break-inside: avoid on a cell
+        w = Words()
+        rows, inside = [], []
+        for i in range(6):
+            n = 3 if i == at else 1
+            texts = [w.take(1) for _ in range(n)]
+            ids = [x for _, t in texts for x in t]
+            style = f'break-inside:{value}' if i == at else ''
+            if i == at:
+                inside.append((value, ids))
+            rows.append(f'<tr><td style="{style}">{"<br>".join(t for t, _ in texts)}</td></tr>')
+        yield (f'avoid-in-cell-{value}-r{at}-H{height}',
+               page(f'<table style="border-spacing:0">{"".join(rows)}</table>', 200, height), [], inside)
+        # heading kept with what follows: table, list, multi-column container
+        for follower in ('table', 'list', 'columns'):
+            w = Words()
+            pre = ''.join(f'<p>{w.take(1)[0]}</p>' for _ in range(at + 1))
+            head, idh = w.take(1)
+            first, idf = w.take(1)
+            rest = [w.take(1)[0] for _ in range(4)]
+            if follower == 'table':
+                nxt = ('<table style="border-spacing:0">' + ''.join(f'<tr><td>{t}</td></tr>' for t in [first] + rest)
+                       + '</table>')
+            elif follower == 'list':
+                nxt = '<ul>' + ''.join(f'<li>{t}</li>' for t in [first] + rest) + '</ul>'
+            else:
+                nxt = ('<div style="columns:2;column-gap:0">' + ''.join(f'<p>{t}</p>' for t in [first] + rest)
+                       + '</div>')
+            yield (f'avoid-head-{follower}-{value}-p{at}-H{height}',
+                   page(f'{pre}<p style="break-after:{value}">{head}</p>{nxt}', 200, height),
+                   [([value, 'auto'], idh, idf)], [])
+        # break-inside: avoid on a list item of three lines and on a block holding a table
+        w = Words()
+        items, inside = [], []
+        for i in range(6):
+            n = 3 if i == at else 1
+            texts = [w.take(1) for _ in range(n)]
+            if i == at:
+                inside.append((value, [x for _, t in texts for x in t]))
+            style = f'break-inside:{value}' if i == at else ''
+            items.append(f'<li style="{style}">{"<br>".join(t for t, _ in texts)}</li>')
+        yield (f'avoid-in-li-{value}-r{at}-H{height}', page(f'<ul>{"".join(items)}</ul>', 200, height), [], inside)
+        w = Words()
+        pre = ''.join(f'<p>{w.take(1)[0]}</p>' for _ in range(at))
+        texts = [w.take(1) for _ in range(3)]
+        inner = '<table style="border-spacing:0">' + ''.join(f'<tr><td>{t}</td></tr>' for t, _ in texts) + '</table>'
+        yield (f'avoid-in-block-table-{value}-p{at}-H{height}',
+               page(f'{pre}<div style="break-inside:{value}">{inner}</div><p>{w.take(1)[0]}</p>', 200, height),
+               [], [(value, [x for _, t in texts for x in t])])
 
 
 # ---------------------------------------------------------------------------------------------
